@@ -7,9 +7,9 @@ package c19lib
 import (
 	"bufio"
 	"bytes"
-	"io"
 	"encoding/hex"
 	"fmt"
+	"io"
 	"os"
 	"path/filepath"
 	"reflect"
@@ -799,16 +799,16 @@ func Scrub(s string) string {
 
 // Plan describes the decoder-safety exploration of one package.
 type Plan struct {
-	Entries      []*Entry // entry points fed with the all-strings enumeration
-	StrAlpha     []byte
-	StrMaxLen    int
+	Entries   []*Entry // entry points fed with the all-strings enumeration
+	StrAlpha  []byte
+	StrMaxLen int
 	// second group: entry points that only get a reduced enumeration (full alphabet unaffordable)
 	Entries2   []*Entry
 	Str2Alpha  []byte
 	Str2MaxLen int
 	// further enumeration groups
-	Groups []StrGroup
-	Seeds  []Seed
+	Groups       []StrGroup
+	Seeds        []Seed
 	Opt          MutOpt
 	TailFull     int // garbage tails up to this length over the full alphabet at every cut position of every seed
 	TailBoundary int // and up to this length over Boundary
@@ -832,6 +832,7 @@ func (p *Plan) Run(r *vr.Report) {
 	r.Bounds["tail_full_alphabet_len"] = p.TailFull
 	r.Bounds["tail_boundary_alphabet_len"] = p.TailBoundary
 	r.Bounds["slack_poison_bytes"] = Slack
+	r.Bounds["nontrivial_registration_cap_per_entry_per_worker"] = 20000 // distinct_nontrivial is a lower bound
 	r.Bounds["alloc_pass_windows_and_truncations_only"] = p.AllocOpt.WindowsOnly
 	r.Bounds["alloc_pass_filtered"] = p.AllocFilter != nil
 	r.Extra["all_strings_count_per_entry"] = CountStrings(len(p.StrAlpha), 0, p.StrMaxLen)
